@@ -35,14 +35,21 @@ class DDSPathUtils(object):
                 )
             # One spelling per path: '/a//b' and '/a/b/' are the path '/a/b' (the stores would otherwise
             # disagree on whether they are the same path)
-            return DDSPath("/" + "/".join([s for s in p.split("/") if s]))
+            segments = [s for s in p.split("/") if s]
+            if not segments:
+                # ('/' is a prefix of every path: it cannot be kept next to any other path, and no store can hold it)
+                raise DDSException(
+                    f"Provided path {p} has no segment. A path must name something below the root",
+                    DDSErrorCode.STORE_PATH_NOT_SUPPORTED,
+                )
+            return DDSPath("/" + "/".join(segments))
         if isinstance(p, pathlib.Path):
             if not p.is_absolute():
                 raise DDSException(
                     f"Provided path {p} is not absolute. All paths must be absolute",
                     DDSErrorCode.PATH_NOT_ABSOLUTE,
                 )
-            return DDSPath(p.absolute().as_posix())
+            return DDSPathUtils.create(p.absolute().as_posix())
         raise NotImplementedError(f"Cannot make a path from object type {type(p)}: {p}")
 
     @staticmethod
